@@ -998,10 +998,18 @@ where
         let (property_length, props) = if cursor < data_arc.len() {
             let (props, consumed) = Properties::parse(&data_arc[cursor..])?;
             cursor += consumed;
-            validate_publish_properties(&props)?;
+            let validation = validate_publish_properties(&props)?;
+            if topic_name.as_str().is_empty()
+                && validation != PropertyValidation::ValidWithTopicAlias
+            {
+                return Err(MqttError::TopicAliasInvalid);
+            }
             let prop_len = VariableByteInteger::from_u32(props.size() as u32).unwrap();
             (prop_len, props)
         } else {
+            if topic_name.as_str().is_empty() {
+                return Err(MqttError::TopicAliasInvalid);
+            }
             (VariableByteInteger::from_u32(0).unwrap(), Properties::new())
         };
 
